@@ -100,6 +100,35 @@ pub fn check_library(lib: &[(String, String)], tag: &str, many: bool, d19_open: 
     (what, runs, attributed)
 }
 
+/// layered reference graphs with shared, non-root ancestors: leaves included from several sections of the
+/// same middle note and from several middle notes, middle notes included from one or two roots — the
+/// walks that collect outline paths reach the same note along several routes, in hash-set order
+fn diamond_library(r: &mut Rng) -> Vec<(String, String)> {
+    let (nl, nm, nr) = (r.range(1, 3), r.range(1, 3), r.range(1, 2));
+    let mut lib = vec![];
+    for i in 0..nl {
+        lib.push((format!("l{}", i), format!("# Leaf {}\n\n## Part {}\n\ntext\n", i, i)));
+    }
+    for j in 0..nm {
+        let mut t = format!("# Mid {}\n\n", j);
+        for (s, name) in ["one", "two", "three"].iter().enumerate().take(r.range(2, 3)) {
+            t.push_str(&format!("## Mid {} {}\n\n[x](l{})\n\n", j, name, if s == 0 { 0 } else { r.below(nl) }));
+        }
+        lib.push((format!("m{}", j), t));
+    }
+    for k in 0..nr {
+        let mut t = format!("# Root {}\n\n", k);
+        for j in 0..nm {
+            t.push_str(&format!("[m](m{})\n\n", j));
+        }
+        if r.chance(1, 2) {
+            t.push_str("## again\n\n[m](m0)\n");
+        }
+        lib.push((format!("r{}", k), t));
+    }
+    lib
+}
+
 pub fn run(ctx: &Ctx, model: &mut Model, rep: &mut Report) {
     rep.rule = "libraries (heading trees with block references, duplicate titles, inline links; and general documents) dumped by separate processes (fresh hash seeds) with RAYON_NUM_THREADS ∈ {1,…,16}, shuffled HashMap build order (import) and shuffled insertion order (insert_document); compared: formatted text and export of every note, titles, backlink sets with places, block at every line, outline paths, search result sets and ordered search results for 4 queries; correspondence: the model's import of the permuted library vs the real graph (arena, keys, paths); non-trivial = ≥2 notes; distinct by library".to_string();
     let parse_lib = |v: &serde_json::Value| -> Vec<(String, String)> { v.as_array().map(|a| a.iter().map(|p| (p[0].as_str().unwrap().to_string(), p[1].as_str().unwrap().to_string())).collect()).unwrap_or_default() };
@@ -119,10 +148,14 @@ pub fn run(ctx: &Ctx, model: &mut Model, rep: &mut Report) {
             _ => rep.resolved_findings.push(json!({"id": f.id, "what": f.what})),
         }
     }
-    let n = if ctx.thorough { 150 } else { 10 };
+    let n = if ctx.thorough { 150 } else { 12 };
     for i in 0..n {
         let mut r = Rng::for_case(ctx.seed ^ 0xC16, i as u64);
-        let lib = if i % 2 == 0 { c18::gen_library(&mut r, false) } else { hist::gen_history(&mut r, true, 0).import };
+        let lib = match i % 3 {
+            0 => c18::gen_library(&mut r, false),
+            1 => diamond_library(&mut r),
+            _ => hist::gen_history(&mut r, true, 0).import,
+        };
         rep.case(&format!("{:?}", lib), lib.len() >= 2);
         if i < 1 {
             rep.sample(json!({"library": lib}));
